@@ -187,7 +187,7 @@ func runHarness(prog *interp.Program, spec HarnessSpec, tier string, trace bool,
 	}
 	cfg := interp.Config{
 		Harness:    spec.Name,
-		Entry:      modPath + "/" + spec.Pkg + "." + spec.Name,
+		Entry:      entryOf(spec),
 		Workers:    workers,
 		StepBudget: spec.Steps,
 		PathBudget: spec.Paths[tier],
@@ -359,4 +359,11 @@ func (ks *knownSet) match(prop, harness, msg string) *knownFinding {
 		}
 	}
 	return nil
+}
+
+func entryOf(spec HarnessSpec) string {
+	if spec.Pkg == "." || spec.Pkg == "" {
+		return modPath + "." + spec.Name
+	}
+	return modPath + "/" + spec.Pkg + "." + spec.Name
 }
